@@ -158,9 +158,15 @@ def cycle_matrix(tier):
         if tier == "quick":
             runs.append(Run(p, name="cycles", heap=16, sems="0,0,0,2,6",
                             extra=["--mode", "cycles", "--cycles", "24"] + x))
+            if p in ("Immix", "SemiSpace", "GenCopy", "MarkSweep"):
+                # requests first made with at_safepoint = false (refused when a collection is due)
+                runs.append(Run(p, name="cycles-tryfirst", heap=16, sems="0,0,0,2", seed_off=5,
+                                extra=["--mode", "cycles", "--cycles", "16", "--tryfirst"]))
         else:
             runs.append(Run(p, name="cycles", heap=16, sems="0,0,0,2,6",
                             extra=["--mode", "cycles", "--cycles", "320"] + x))
+            runs.append(Run(p, name="cycles-tryfirst", heap=16, sems="0,0,0,2,6", seed_off=5,
+                            extra=["--mode", "cycles", "--cycles", "200", "--tryfirst"]))
             runs.append(Run(p, name="cycles-big", heap=64, sems="0,0,2", workers=8, seed_off=1,
                             extra=["--mode", "cycles", "--cycles", "80"] + x))
             runs.append(Run(p, name="cycles-rel", heap=24, sems="0,0,0,2,6", release=True, seed_off=2,
